@@ -1,6 +1,6 @@
 (* C09 - Totality on arbitrary runtime state: never panics, overflows or hangs.
    Only theorem statements, each closed by `exact`. *)
-From FH Require Import Word X86 A64 Unwinder X86Exec A64Exec.
+From FH Require Import Word X86 A64 Unwinder X86Unw A64Unw X86Exec A64Exec HostileFacts.
 Open Scope N_scope.
 
 (* x86_64 rule execution: for every rule any producer can emit, every first/caller flag, every
@@ -20,6 +20,28 @@ Theorem C09_decode_total : forall cnt enc, enc < 40320 ->
   exists l, decode cnt enc = Ok l /\ (length l <= 8)%nat.
 Proof. exact decode_ok. Qed.
 Print Assumptions C09_decode_total.
+
+(* Whole calls, every module format of the model (no data, DWARF in three presentations, PE), any
+   unwind data, any producible cache: unwind_frame returns Ok or Err, or - the recorded known
+   finding S5_dep_pe_unwind_info - panics at the one site that is NOT framehop's code
+   (pe-unwind-info's unchecked register arithmetic, reachable only through a PE module); it never
+   hangs.  [safe] is exactly "Ok, Err, or a panic whose site is not framehop's own"; S_pe_dep is
+   the only such site in the model. *)
+Theorem C09_unwind_x86_total_outside_known : forall u c a rg m,
+  cache_ok c -> faddr_wf a = true ->
+  match o_res _ _ (unwind_frame_x u c a rg m) with
+  | Ok _ | Err _ => True
+  | Panic s => s = S_pe_dep
+  | Hang => False
+  end.
+Proof. exact unwind_frame_x_total_outside_dep. Qed.
+Print Assumptions C09_unwind_x86_total_outside_known.
+
+(* aarch64 has no such site: Ok or Err, always. *)
+Theorem C09_unwind_a64_total : forall u c a rg m,
+  faddr_wf a = true -> returns (o_res _ _ (unwind_frame_a u c a rg m)) = true.
+Proof. exact unwind_frame_a_returns. Qed.
+Print Assumptions C09_unwind_a64_total.
 
 (* History: the tree before the fix for S3 violated the statement. *)
 Theorem C09_exec_x86_bare_refuted :
